@@ -657,8 +657,10 @@ Proof.
   unfold create_table.
   rewrite (sa_bind_ok (sa_getA_eq _ _ _ Ha)). rewrite Hn. cbn [length Nat.ltb Nat.leb negb guard].
   rewrite (sa_bind_ok (m := ret tt) (s := s) eq_refl).
+  cbn [rels_distinct guard]. rewrite (sa_bind_ok (m := ret tt) (s := s) eq_refl).
   cbn [place_targets of_opt]. rewrite (sa_bind_ok (m := ret _) (s := s) eq_refl).
   cbn [forM_]. rewrite (sa_bind_ok (m := ret tt) (s := s) eq_refl).
+  unfold register_targets; cbn [forM_]. rewrite (sa_bind_ok (m := ret tt) (s := s) eq_refl).
   rewrite (sa_bind_ok (m := get) (s := s) eq_refl).
   rewrite Hf. cbn [rev].
   unfold arch_has_rels. rewrite Hn. cbn [Nat.eqb negb].
@@ -710,6 +712,8 @@ Proof.
     + assert (E : exists e, create_table aid (r :: rest) s = Err e s).
       { unfold create_table. rewrite (sa_bind_ok (sa_getA_eq _ _ _ Ha)). rewrite Hn.
         cbn [Nat.ltb Nat.leb negb guard]. rewrite (sa_bind_ok (m := ret tt) (s := s) eq_refl).
+        destruct (rels_distinct (r :: rest)); cbn [guard]; [|exists ERelUnspec; reflexivity].
+        rewrite (sa_bind_ok (m := ret tt) (s := s) eq_refl).
         destruct (place_targets a (r :: rest) (repeat zero_ent (length (a_comps a)))) as [tg|].
         - cbn [of_opt]. rewrite (sa_bind_ok (m := ret tg) (s := s) eq_refl).
           cbn [forM_]. exists ENotRelation. apply sa_bind_err. apply sa_bind_err. apply sa_check_rel_fails. exact HN.
